@@ -34,6 +34,7 @@ type Obligation struct {
 	Axioms  []string
 	NoAxioms []string
 	Opaque   []string
+	ProvingLemma bool
 	FindingHyp *Term // negated characteristic predicate of a listed known finding
 	retried bool
 }
